@@ -229,7 +229,14 @@ def _build_not_cue(inputs):
                     as_cue = type(img).__name__
                 except BadCueSheet:
                     as_cue = "BadCueSheet"
-            return {"is_text": is_text, "as_cue": as_cue}
+            # the same path opened again in the same process reads the same (twice through the public entry point)
+            again = []
+            for _ in range(2):
+                try:
+                    again.append(type(determine_image_type(p)).__name__)
+                except BaseException as e:  # noqa
+                    again.append("raised " + type(e).__name__)
+            return {"is_text": is_text, "as_cue": as_cue, "again": again}
         finally:
             shutil.rmtree(d, ignore_errors=True)
     return {"call": run, "env": {}}
@@ -247,6 +254,10 @@ def _oracle_not_cue(inputs, kind, val, env):
         bad.append(f"oracle.no-FILE-line-is-not-a-cue-sheet(got {val['as_cue']})")
     if ascii_ and inputs["has_file_line"] and inputs.get("all_audio") and val["as_cue"] != "CompactDiskAudioImage":
         bad.append(f"oracle.all-audio-cue-is-CDDA(got {val['as_cue']})")
+    if len(set(val["again"])) != 1:
+        bad.append(f"oracle.the-same-file-reads-the-same-when-opened-again({val['again']})")
+    if ascii_ and inputs["has_file_line"] and inputs.get("all_audio") and val["again"][0] != "CompactDiskAudioImage":
+        bad.append(f"oracle.all-audio-cue-is-CDDA-through-determine_image_type(got {val['again']})")
     return bad
 
 
